@@ -364,6 +364,10 @@ class LoopState:
     def g(self):
         return self.eng.ghost
 
+    @staticmethod
+    def e_not(v):
+        return b_not(v) if not isinstance(v, bool) else (not v)
+
     def kof(self, ordn):
         """ghost index of the enclosing loop #ordn (arbitrary-iteration path)"""
         return self.env.lookup("__k_loop%d" % ordn)
@@ -1899,6 +1903,8 @@ class Engine:
                 ce = Env(parent=env)
                 self.assign(g0.target, seq.get(k), ce)
                 return self.eval(e.elt, ce)
+            if kind == "gen":
+                return models.SymGen(SymSeq(seq.n, get))
             return SymSeq(seq.n, get)
         items = list(it) if not isinstance(it, SymSeq) else [it.get(i) for i in range(it.n)]
         out = []
@@ -2021,6 +2027,8 @@ def _assigned_names(st):
                 out.add(base.id)
         elif isinstance(n, ast.NamedExpr):
             out.add(n.target.id)
+        elif isinstance(n, ast.Call) and isinstance(n.func, ast.Name) and n.func.id == "next" and n.args and isinstance(n.args[0], ast.Name):
+            out.add(n.args[0].id)
     if isinstance(st, ast.For):
         out |= _target_names(st.target)
     return out
